@@ -10,3 +10,5 @@ for d in "${dirs[@]}"; do
   git -C /repo checkout -- .
   echo "$n: exit=$rc $(echo "$out" | grep -E '^VIOLATION' | head -2 | sed 's/replay=.*//' | tr '\n' ' ') $(echo "$out" | grep -E '^  harness' | head -1 | cut -c1-110)"
 done
+# the runs above rewrote evidence/ from mutated trees: restore the committed (clean-tree) evidence
+git -C /verif checkout -- evidence/ 2>/dev/null
